@@ -42,6 +42,9 @@ class Report:
             "by_backend": dict(self.backends), "solver_seconds": round(self.solver_seconds, 1),
             "samples": self.samples[:6], "exhaustive": False,
         }
+        ws = sum((t.get("ws_warn") or 0) for t in self.targets)
+        if ws:
+            cov["write_set_arg_warnings"] = ws
         cov.update(self.notes)
         if extra_cov:
             cov.update(extra_cov)
@@ -62,6 +65,8 @@ TRUSTED = [
     "models/ll2c_models.h: C models of the llvm.x86.* intrinsics (Intel SDM semantics), differential-tested natively",
     "CBMC 6.11 bit-vector / IEEE-754 semantics, goto-instrument --dfcc contract instrumentation",
     "XSIMD_INLINE redefined to noinline (function boundaries only)",
+    "specification helpers called only from contract clauses are left uninstrumented by dfcc; where they call an instrumented helper CBMC passes a "
+    "non-deterministic write-set pointer (count in coverage.write_set_arg_warnings); helper results do not depend on it",
 ]
 
 
@@ -289,7 +294,7 @@ def run_groups(prop, groups, tier, seed, props_filter=None, ll2c_opts=None, work
                    "n_props": r.get("n_props", 0), "mode": r["mode"], "backend": r["backend"], "seconds": r.get("seconds", 0),
                    "replaced": [c["demangled"].split("(")[0][-60:] for c in job["callees"]], "n_inlined": len(job.get("inlined", [])),
                    "detail": r.get("detail", ""), "failed": r.get("failed", []), "stem": stem, "fn_obj": fn, "task": t,
-                   "same_vc_as": r.get("same_vc_as"), "history": r.get("history")}
+                   "same_vc_as": r.get("same_vc_as"), "history": r.get("history"), "ws_warn": r.get("write_set_arg_warnings")}
             rep.replaced.update(c["name"] for c in job["callees"])
             rep.solver_seconds += r.get("solver_seconds", 0)
             if r["status"] == "proved" and not r.get("same_vc_as"):
